@@ -168,7 +168,10 @@ class Processor(ABC):
             materialization.
         """
         if original.payload is not None:
-            return original, True
+            # A payload that is already attached to a Transfer may have been
+            # obtained with ``materialize_as=None``, in which case it is not
+            # appropriate for caching with a Materialization.
+            return original, not isinstance(original, Transfer)
         result: Relation
         payload: Any = None
         match original:
